@@ -20,7 +20,9 @@ func runC12(e *Env) error {
 	e.Rule = "per topic: honest messages over the slots/committees/subnets of a window on chains built with the real transition (real BLS signatures), plus every single-condition corruption and the timing/availability failures; non-trivial = every case (each runs a validator against a chain view); distinct by (topic, corruption, verdict, ordinal)"
 	g := &Gen{E: e, Count: map[string]int{}, Salt: e.Rng.Intn(1 << 20)}
 	c := NewCrypto()
-	lap := func(what string) { fmt.Fprintf(os.Stderr, "%-28s %8.2fs  cases so far %d\n", what, time.Since(t0).Seconds(), g.Total) }
+	lap := func(what string) {
+		fmt.Fprintf(os.Stderr, "%-28s %8.2fs  cases so far %d\n", what, time.Since(t0).Seconds(), g.Total)
+	}
 
 	// world "small": 64 validators, two committees of four per slot, altair from epoch 2
 	small := NewWorld(WorldKnobs{Name: "small", Validators: 64, TargetCommittee: 4, SyncCommittee: 32, AltairEpoch: 2, ShardCommittee: 1, MaxCommitteeSize: 16}, c)
@@ -75,6 +77,44 @@ func runC12(e *Env) error {
 	lap("contributions large")
 	g.genSyncMessages(lc, lheads[1:])
 	lap("sync messages large")
+	if !e.Quick() {
+		// world "mid": 128 validators, four committees of four per slot, altair from epoch 1; every topic again
+		mid := NewWorld(WorldKnobs{Name: "mid", Validators: 128, TargetCommittee: 4, SyncCommittee: 32, AltairEpoch: 1, ShardCommittee: 2, MaxCommitteeSize: 16}, c)
+		mc := buildChain(mid, 36)
+		lap("chain mid")
+		var mheads, mviews = []*Node{}, []*View{}
+		for i, n := range mc.Main {
+			if i%4 == 1 || n == mc.Tip() {
+				mheads = append(mheads, n)
+				mviews = append(mviews, mkView(mc, n, n.Slot+common.Slot(i%2), 2000))
+			}
+		}
+		g.genExits(mid, mheads, sample, mc.Special)
+		g.genProposerSlashings(mid, mheads, sample, mc.Special)
+		g.genAttesterSlashings(mid, mheads, mc.Special)
+		g.genAttestations(mc, mviews)
+		g.genAggregates(mc, mviews)
+		g.genBlocks(mc)
+		var msync []*Node
+		for _, n := range mheads {
+			if mid.Spec.SlotToEpoch(n.Slot) >= 1 {
+				msync = append(msync, n)
+			}
+		}
+		g.genSyncMessages(mc, msync)
+		g.genContributions(mc, msync)
+		lap("world mid")
+		// more views of the large world
+		var lv []*View
+		for i, n := range lc.Main {
+			if i%5 == 2 {
+				lv = append(lv, mkView(lc, n, n.Slot, 3000))
+			}
+		}
+		g.genAggregates(lc, lv)
+		g.genBlocks(lc)
+		lap("large again")
+	}
 	g.Flush()
 	return nil
 }
